@@ -51,6 +51,11 @@ func runC06(c *engine.Ctx) {
 	r3 := c.Rule("R3", "unpause only from Paused; re-queue with state and queue together", 1)
 	r4 := c.Rule("R4", "every finished load attempt (failed ones too) enters the traversal record, with its own outcome, before the next load", 1)
 	c06Record(c, r4)
+	// responses that arrive while the request is paused are refused and their queue items recycled; a recycled item
+	// must not carry the refused block's bytes into the re-request's response (C01.R3/R3b)
+	r5 := c.Rule("R5", "queue items keep to their own response: bytes come from the response's block map by link, other writers store nil (C01.R3)", 2)
+	r5b := c.Rule("R5b", "items recycled from a refused or cleaned-up response are wiped before they return to the pool (C01.R3b)", 2)
+	c01Ingest(c, r5, r5b)
 
 	qe := "responsemanager/queryexecutor"
 	n := 0
